@@ -20,6 +20,7 @@ CHECKS = {
  'C13': ('E1 serialiser explorer', '15 byte-order helpers over all 2^16 values / structured 32- and 64-bit lattices (thorough: all 2^32), memory images, inverses, and the other preprocessor branch compared as functions', 'trusted: the bytewise expectation in the checker; the forced-macro build of the other branch', TECH),
  'C14': ('E5 configuration explorer', 'the case lattices of C01 C02 C04-C10 C12 C13 C17 executed natively and inside an emulated big-endian host (at -O0 and -O1), each against the byte-addressed reference model, with transcripts compared between worlds', 'trusted: clang mips64 front end + be/rewrite.py (bswap on every multi-byte load/store, reversed integer initialisers; refuses unknown IR) as a model of a big-endian host, bound by known-answer self-tests and an identity run of the same pipeline; no big-endian hardware/emulator exists in the sandbox', 'exhaustive enumeration of host-byte-order configurations, each running the bounded case lattices on the real code'),
  'C15': ('E5 configuration explorer', 'the case lattices of C01 C02 C04 C05 C06-C10 C12 C17 executed in all 64 configurations {gcc,clang} x -O0..-O3 x PDU offset 0..7 against the reference model, transcripts compared between worlds, plus a clang -fsanitize=alignment world where every misaligned-access report is a violation', 'trusted: the reference model; x86-64 host does not trap on misalignment, hence the sanitizer world; caller-owned arrays stay naturally aligned', 'exhaustive enumeration of build/placement configurations, each running the bounded case lattices on the real code'),
+ 'C16': ('E3 schedule explorer', 'every load/store of the library hooked by compiler instrumentation bound to our own runtime: (i) ownership classification of every access of every public function, (ii) all interleavings of 2-3 cooperative threads up to a preemption bound with scheduling points at every hooked non-stack access, per-thread results and buffers compared with the sequential reference; planted-bug self-test; free-running real-ThreadSanitizer complement', 'trusted: clang -fsanitize=thread instrumentation covering every memory access of the library (memcpy/memset renamed to hooked versions), sequential consistency of the explored interleavings; the -O0 build decides', 'stateless model checking of the implementation: preemption-bounded exhaustive schedule exploration (iterative context bounding) under a controlled cooperative scheduler'),
  'C17': ('E1/E2 field explorer', 'every pair of views sharing a field: reads and writes through either view over buffer/value lattices, images compared', NOTE_E1, TECH),
  'C20': ('E5 configuration explorer', 'every header alone, all ordered pairs, the full set in 28 orders (thorough: more rotations and triples) x {C99, C++}, each TU asserting every public integer name against its stand-alone value', 'trusted: gcc/g++ front ends, the header parser that collects names (a name it misses is not asserted)', 'exhaustive enumeration of build configurations (ordered header pairs/sets x language) with generated static assertions'),
 }
@@ -37,7 +38,7 @@ def main():
                             'evidence_file': 'evidence/%s.json' % pid, 'replay_cmd_template': './vcheck replay {path}', 'engine': eng,
                             'level_claimed': {'category': 'model_checking', 'text': text, 'design_ref': 'DESIGN.md sections 3-4'},
                             'level_note': note, 'technique': tech})
-    paths = {'E1/E2 field explorer': 'engine/explore_fields.c', 'E1 serialiser explorer': 'engine/explore_ser.c', 'E5 configuration explorer': 'vlib/c14.py, vlib/c15.py, vlib/c20.py, be/rewrite.py'}
+    paths = {'E3 schedule explorer': 'engine/explore_sched.c', 'E1/E2 field explorer': 'engine/explore_fields.c', 'E1 serialiser explorer': 'engine/explore_ser.c', 'E5 configuration explorer': 'vlib/c14.py, vlib/c15.py, vlib/c20.py, be/rewrite.py'}
     m['engines'] = [{'name': e, 'path': paths.get(e, 'vlib/'), 'serves_properties': ps, 'kind_free_text': 'bounded exhaustive exploration of the real code'} for e, ps in engines.items()]
     allp = [json.loads(l)['id'] for l in open(os.path.join(ROOT, 'properties.jsonl'))]
     m['not_applicable'] = [{'property_id': p, 'reason': REASON_TODO} for p in allp if p not in CHECKS]
